@@ -1,5 +1,5 @@
 //@unit compiler
-//@property C04 C06
+//@property C04
 // Contracts for the single-pass compiler's encoders and name resolution (yarel/src/compiler.rs, chunk.rs).
 // Everything between `//@fn … //@end` is replaced by the function text extracted from /repo on every run.
 use vstd::prelude::*;
@@ -93,7 +93,7 @@ impl Compiler {
         forall|j: int| 0 <= j < self.locals.len() ==> (#[trigger] self.locals[j]).name@ != name
     }
 
-    //@fn file=yarel/src/compiler.rs path=Compiler::add_local ret=r
+    //@fn file=yarel/src/compiler.rs path=Compiler::add_local ret=r props=C04,C06
     //@  rewrite R11
     //@  subst "name.source.clone()" => "string_clone(&name.source)" count=1
     //@  requires old(self).wf()
@@ -105,7 +105,7 @@ impl Compiler {
     //@  ensures final(self).upvalues@ == old(self).upvalues@ && final(self).chunk == old(self).chunk && final(self).scope_depth == old(self).scope_depth
     //@end
 
-    //@fn file=yarel/src/compiler.rs path=Compiler::mark_initialised
+    //@fn file=yarel/src/compiler.rs path=Compiler::mark_initialised props=C04,C06
     //@  requires (local as int) < old(self).locals.len()
     //@  ensures final(self).locals@.len() == old(self).locals@.len()
     //@  ensures final(self).locals@[local as int].depth == Some(old(self).scope_depth)
@@ -113,7 +113,7 @@ impl Compiler {
     //@  ensures forall|j: int| 0 <= j < old(self).locals@.len() && j != local ==> final(self).locals@[j] == old(self).locals@[j]
     //@end
 
-    //@fn file=yarel/src/compiler.rs path=Compiler::resolve_local ret=r
+    //@fn file=yarel/src/compiler.rs path=Compiler::resolve_local ret=r props=C04,C06
     //@  rewrite R5
     //@  subst "local.name == name.source" => "string_eq(&local.name, &name.source)" count=1
     //@  requires self.locals.len() <= 256
@@ -127,7 +127,7 @@ impl Compiler {
     //@  before "return Err(CompilerError::ReadVarInInitialiser);" proof { assert(self.is_last_match(i as int, name.source@)); }
     //@end
 
-    //@fn file=yarel/src/compiler.rs path=Compiler::add_upvalue ret=r
+    //@fn file=yarel/src/compiler.rs path=Compiler::add_upvalue ret=r props=C04,C06
     //@  rewrite R5 R11
     //@  requires old(self).wf()
     //@  ensures final(self).wf()
@@ -197,6 +197,17 @@ proof fn lemma_drop_count_le(locals: Seq<Local>, d: usize)
     decreases locals.len()
 {
     if locals.len() == 0 || locals.last().depth.unwrap() <= d { } else { lemma_drop_count_le(locals.drop_last(), d); }
+}
+
+
+// a local of the same name declared in the scope being compiled (the trailing run of locals that are
+// uninitialised or at depth >= d)
+spec fn same_scope_duplicate(locals: Seq<Local>, d: usize, name: Seq<char>) -> bool
+    decreases locals.len()
+{
+    if locals.len() == 0 { false }
+    else if locals.last().depth.is_some() && locals.last().depth.unwrap() < d { false }
+    else { locals.last().name@ == name || same_scope_duplicate(locals.drop_last(), d, name) }
 }
 
 // ================================================================== Parser (emitters, resolution across compilers)
@@ -270,7 +281,7 @@ impl Parser {
     }
     // only the error log may have changed (and it can only grow into "has_error")
     spec fn same_but_errors(&self, b: &Parser) -> bool {
-        &&& self.compilers == b.compilers && self.previous == b.previous && self.current == b.current
+        &&& self.compilers@ =~= b.compilers@ && self.previous == b.previous && self.current == b.current
         &&& self.class_compilers == b.class_compilers && self.pushed == b.pushed && self.single_target_mode == b.single_target_mode
         &&& (self.has_error() ==> b.has_error())
     }
@@ -415,7 +426,7 @@ impl Parser {
     { unimplemented!() }
 
     spec fn same_but_tokens_errors(&self, b: &Parser) -> bool {
-        &&& self.compilers == b.compilers && self.class_compilers == b.class_compilers && self.pushed == b.pushed
+        &&& self.compilers@ =~= b.compilers@ && self.class_compilers == b.class_compilers && self.pushed == b.pushed
         &&& self.single_target_mode == b.single_target_mode
         &&& (self.has_error() ==> b.has_error())
     }
@@ -584,6 +595,33 @@ impl Parser {
     //@  ensures old(self).cur().loop_stack@.len() > 0 ==> ({ let pops = scope_end_code(old(self).cur().locals@, old(self).cur().loop_stack@.last().1); let n = old(self).code().len() + pops.len(); final(self).code().len() == n + 3 && final(self).code().subrange(0, n as int) == old(self).code() + pops && final(self).code()[n as int] == opcode_byte(OpCode::Loop) && (final(self).has_error() || n + 3 - u16_of(final(self).code()[n as int + 1], final(self).code()[n as int + 2]) == old(self).cur().loop_stack@.last().0) })
     //@  ensures final(self).cur().locals@ == old(self).cur().locals@
     //@  before "self.emit_loop(jump_target);" proof { lemma_drop_count_le(old(self).cur().locals@, scope_depth); }
+    //@end
+    // ---------------------------------------------------------------- C06: declaration and resolution
+    //@fn file=yarel/src/compiler.rs path=Parser::resolve_local ret=r props=C06,C04
+    //@  requires old(self).pwf()
+    //@  ensures final(self).pwf(), old(self).same_but_errors(final(self))
+    //@  ensures r matches Some(i) ==> old(self).cur().is_last_match(i as int, name.source@) && old(self).cur().locals[i as int].depth.is_some()
+    //@  ensures r is None ==> old(self).cur().no_match(name.source@) || final(self).has_error()
+    //@end
+
+    //@fn file=yarel/src/compiler.rs path=Parser::declare_variable props=C06,C04
+    //@  rewrite R5
+    //@  subst "self.previous.source == local.name" => "string_eq(&self.previous.source, &local.name)" count=1
+    //@  requires old(self).pwf()
+    //@  ensures final(self).pwf(), old(self).has_error() ==> final(self).has_error(), final(self).compilers.len() == old(self).compilers.len()
+    //@  ensures old(self).cur().scope_depth == 0 ==> *final(self) == *old(self)
+    //@  ensures old(self).cur().scope_depth > 0 && !final(self).has_error() ==> final(self).cur().locals@.len() == old(self).cur().locals@.len() + 1 && final(self).cur().locals@.subrange(0, old(self).cur().locals@.len() as int) == old(self).cur().locals@ && final(self).cur().locals@.last().name@ == old(self).previous.source@ && final(self).cur().locals@.last().depth.is_none() && !final(self).cur().locals@.last().is_captured
+    //@  ensures old(self).cur().scope_depth > 0 && !final(self).has_error() ==> !same_scope_duplicate(old(self).cur().locals@, old(self).cur().scope_depth, old(self).previous.source@)
+    //@  ensures final(self).code() == old(self).code() && final(self).cur().upvalues@ == old(self).cur().upvalues@ && final(self).cur().scope_depth == old(self).cur().scope_depth
+    //@  ensures forall|i: int| 0 <= i < old(self).compilers.len() - 1 ==> final(self).compilers[i] == old(self).compilers[i]
+    //@  at body.start let ghost locs = self.cur().locals@; let ghost nm = self.previous.source@; let ghost sd = self.cur().scope_depth;
+    //@  loop 0 invariant self.compilers@ == old(self).compilers@, self.previous == old(self).previous, self.pushed == old(self).pushed, old(self).has_error() ==> self.has_error(), self.pwf()
+    //@  loop 0 invariant locs == self.cur().locals@, nm == self.previous.source@, sd == self.cur().scope_depth, scope_depth == sd, __k0 <= locs.len()
+    //@  loop 0 invariant_except_break !self.has_error() ==> !same_scope_duplicate(locs, sd, nm) || same_scope_duplicate(locs.subrange(0, __k0 as int), sd, nm)
+    //@  loop 0 ensures !self.has_error() ==> !same_scope_duplicate(locs, sd, nm)
+    //@  loop 0 decreases __k0
+    //@  after "__k0 -= 1;" proof { assert(locs.subrange(0, __k0 as int + 1).drop_last() =~= locs.subrange(0, __k0 as int)); assert(locs.subrange(0, __k0 as int + 1).last() == locs[__k0 as int]); }
+    //@  before "while __k0 > 0" proof { assert(locs.subrange(0, locs.len() as int) =~= locs); }
     //@end
 }
 
